@@ -34,6 +34,7 @@ type walker struct {
 	methods   map[string]*ast.FuncDecl
 	out       *[]access
 	calls     *[]access
+	relocks   *[]access
 	top       string
 	held      map[string]string // lock -> "R"|"W"
 	deferred  map[string]bool
@@ -142,6 +143,11 @@ func (w *walker) expr(e ast.Node, write bool) {
 }
 
 func (w *walker) lockOp(l, op string) {
+	// a lock taken while the SAME lock is already held on this path: sync.Mutex / RWMutex are not reentrant. Lock under
+	// Lock or RLock blocks for ever; RLock under RLock blocks as soon as a writer queues in between.
+	if (op == "Lock" || op == "RLock") && w.held[l] != "" && w.relocks != nil {
+		*w.relocks = append(*w.relocks, access{w.top, l, op, w.locksStr()})
+	}
 	switch op {
 	case "Lock":
 		w.held[l] = "W"
@@ -313,7 +319,7 @@ func init() {
 		if root == "" {
 			root = "/repo"
 		}
-		var rows, callRows []string
+		var rows, callRows, relockRows []string
 		fset := token.NewFileSet()
 		for _, dir := range lockDirs {
 			pkgs, err := parser.ParseDir(fset, root+"/"+dir, func(fi os.FileInfo) bool {
@@ -373,7 +379,7 @@ func init() {
 					}
 				}
 				for tn, lf := range lockFields {
-					var acc, calls []access
+					var acc, calls, relocks []access
 					var mns []string
 					for mn := range methods[tn] {
 						mns = append(mns, mn)
@@ -387,12 +393,16 @@ func init() {
 						if mn == "Initialize" {
 							continue // construction: the value is not shared yet
 						}
-						w := &walker{recvName: fd.Recv.List[0].Names[0].Name, typeName: tn, lockFlds: lf, methods: methods[tn], out: &acc, calls: &calls, top: mn, held: map[string]string{}, deferred: map[string]bool{}}
+						w := &walker{recvName: fd.Recv.List[0].Names[0].Name, typeName: tn, lockFlds: lf, methods: methods[tn], out: &acc, calls: &calls, relocks: &relocks, top: mn, held: map[string]string{}, deferred: map[string]bool{}}
 						w.block(fd.Body.List)
 					}
 					for _, c := range calls {
 						callRows = append(callRows, fmt.Sprintf("  ⟨%q, %q, %q, %q, %q, %v, %v⟩", p.Name+"."+tn, c.method, c.field, c.rw, c.locks,
 							c.locks != "{}", strings.Contains(c.locks, ":W")))
+					}
+					for _, c := range relocks {
+						relockRows = append(relockRows, fmt.Sprintf("  ⟨%q, %q, %q, %q, %q, %v, %v⟩", p.Name+"."+tn, c.method, c.field, c.rw, c.locks,
+							true, strings.Contains(c.locks, ":W")))
 					}
 					written := map[string]bool{}
 					for _, a := range acc {
@@ -424,6 +434,11 @@ func init() {
 		fmt.Println("/-- calls through a field of the receiver (`field` = \"<field>.<Method>\"), with the locks held at the call -/")
 		fmt.Println("def calls : List Access := [")
 		fmt.Println(strings.Join(dedupe(callRows), ",\n"))
+		fmt.Println("]")
+		sort.Strings(relockRows)
+		fmt.Println("/-- a lock taken while the same lock is already held on that path (`field` = the lock, `rw` = Lock | RLock) -/")
+		fmt.Println("def relocks : List Access := [")
+		fmt.Println(strings.Join(dedupe(relockRows), ",\n"))
 		fmt.Println("]")
 		fmt.Println("end C13.Generated")
 		return nil
